@@ -66,6 +66,22 @@ def _ascii_members():
     return out
 
 
+# what a terminal, a pipe or an editor adds around the text the operator meant
+NOISE_AFTER = ("\r", "\n", "\r\n", "\n\r", "\r\r\n", " ", "  ", "\t", "\x00", "\x04", "\x08", "\x7f", "\x1b",
+               "\x1b[A", "\x0b", "\x0c", "\x85", "\u2028", "\u00a0", "\u200b", "\ufeff")
+NOISE_BEFORE = (" ", "\t", "\r", "\n", "\x00", "\ufeff", "\u200b", "\u200e", "\u2060", "\x1b[200~", "\x08")
+
+
+def _noise_members():
+    out = ["abcd1234" + n for n in NOISE_AFTER]                         # compliant + trailing noise
+    out += [n + "abcd1234" for n in NOISE_BEFORE]                       # leading noise + compliant
+    out += [" abcd1234 ", "\ufeffabcd1234\r\n", "\tabcd1234\n", "ABCDEFGH\r", "a1234567\n", "1234567z\r\n"]
+    # the same around PINs that are not compliant anyway (one of them: 7 characters + CR = 8 bytes)
+    out += ["abc1234\r", "abc1234\r\n", "12345678\r", "12345678\n", "abcd12345\r", " abc1234", "1234567\t",
+            "abc!1234\r", "Z\u00fcrich1\n", "\ufeff12345678"]
+    return out
+
+
 # Members of every PIN content class of spec/Admin.tla, boundary-first. Every member is run in the
 # PIN-decisive (single-deviation) behaviours; elsewhere one seeded member is drawn.
 PIN_MEMBERS = {
@@ -76,6 +92,7 @@ PIN_MEMBERS = {
     "len7": ["abc1234", "a123456", "ABCDEFG", "abcdefg", "123456z", "1234567", "a"],
     "len9": ["abcd12345", "a12345678", "ABCDEFGHI", "abcdefghi", "12345678z", "123456789"],
     "ascii": _ascii_members(),
+    "noise": _noise_members(),
     # non-ASCII text whose UTF-8 encoding is exactly 8 bytes: Latin-1 letters and signs (2 bytes),
     # Greek / Cyrillic / Arabic-Indic and extended Arabic-Indic digits (2), fullwidth forms and CJK
     # (3), emoji and mathematical digits (4), NBSP
@@ -135,6 +152,11 @@ def pin_of_class(cls, rng, boundary=False):
         p = [rng.choice(ALNUM) for _ in range(8)]
         p[rng.randrange(8)] = rng.choice(PUNCT + ASCII_EDGE)
         return "".join(p)
+    if cls == "noise":
+        core = pin_of_class(rng.choice(["ok", "ok", "ok", "digits", "len7", "len9"]), rng)
+        if rng.random() < 0.7:
+            return core + rng.choice(NOISE_AFTER)
+        return rng.choice(NOISE_BEFORE) + core + rng.choice(("",) + NOISE_AFTER)
     if cls == "hi8":
         return compose_utf8(rng, 8)
     if cls == "hiwide":
@@ -149,8 +171,10 @@ def random_pin(rng):
     """Binding B: PIN strings around the policy boundary (7/8/9 characters, all digits, one case
     only, ASCII punctuation / blanks / controls, non-ASCII text of exactly 8 bytes or of 8
     characters, members of the class lists with one character mutated)."""
-    kind = rng.randrange(14)
+    kind = rng.randrange(16)
     n = rng.choice([7, 8, 8, 8, 9])
+    if kind >= 14:
+        return pin_of_class("noise", rng)
     if kind <= 2:
         p = "".join(rng.choice(ALNUM) for _ in range(n))
     elif kind == 3:
@@ -181,6 +205,18 @@ def random_pin(rng):
     else:
         p = "".join(rng.choice(ALNUM + PUNCT) for _ in range(n))
     return p
+
+
+def sweep_wrapped(planes=(1,)):
+    """A compliant PIN with every character of the given UTF-8 lengths appended, and prepended
+    (the noise of the input channel, exhaustively for the low planes)."""
+    cps = []
+    if 1 in planes:
+        cps += list(range(0x80))
+    if 2 in planes:
+        cps += list(range(0x80, 0x800))
+    cps += [0x2028, 0x2029, 0x200B, 0x200C, 0x200D, 0x200E, 0x2060, 0xFEFF, 0xFFFD, 0x3000, 0x1F511]
+    return ["abcd1234" + chr(c) for c in cps] + [chr(c) + "abcd1234" for c in cps]
 
 
 def sweep_pins(planes=(1, 2)):
